@@ -1,7 +1,10 @@
 """C27 — REPL sessions behave like batch runs of their accepted inputs.
 
 Stream c27.sessions: seeded histories over the tiny language of coq/Model/C27_Repl.v (method
-(re)definitions, constants, typed top-level locals, assignments, prints; inputs that are rejected EARLY
+(re)definitions, constants (also initialised from earlier constants), named types (`typedef`, at Root level and inside
+modules, referring to Int/String/other named types/classes, forwards and backwards inside one input), empty class
+declarations and their instances, top-level locals whose declared type is a type expression, assignments, prints;
+"flat" inputs made of Root-level declarations only (nothing in them opens a scope); inputs that are rejected EARLY
 (type-definition phase) or LATE (after hoisting, after some bodies were checked); inputs that raise a
 runtime error after some effects), printed to Elk and driven IN-PROCESS through the calls repl.evaluate
 makes (harness/cmd/c27: checker.CheckSourceBytecode + vm.InterpretREPL on one checker / one VM).
@@ -15,8 +18,9 @@ Session s-expression (the model driver's input; the corpus stores these):
   (sess (inp stmt...) ...)   stmt: (def m i|s e) (const k e) (decl v X e) (asg v e) (pr e) early (td a X) (cls c)
   texp X: i s (a alias) (o class)
   expr: (i z) (s n) (l v) (k n) p (c m e) (add a b) (mul a b) (div a b) (new class)
-Alias / constant ids >= 100 are printed inside a module (id // 100): `module M1X7; typedef T2X7 = ..; end`, used as
-`M1X7::T2X7` — the model has one flat table of named types and one of constants; the module only changes WHERE the
+Alias / constant ids >= 100 are printed inside a module (id // 100): `module M1X7; typedef T102X7 = ..; end`, used as
+`M1X7::T102X7` (the local name keeps the full id: inside a module body an unqualified name resolves to the module's own
+member first) — the model has one flat table of named types and one of constants; the module only changes WHERE the
 implementation registers them (scope push/pop, namespace declaration).  Constants initialised from other constants
 are generated but never read at run time ("dead": the compiler never defines them, in batch and REPL alike).
 """
@@ -83,14 +87,14 @@ TY = {"i": "Int", "s": "String"}
 def const_name(k, sid):
     k = int(k)
     if k >= 100:
-        return "M%dX%d::K%dX%d" % (k // 100, sid, k % 100, sid)
+        return "M%dX%d::K%dX%d" % (k // 100, sid, k, sid)
     return "K%dX%d" % (k, sid)
 
 
 def alias_name(a, sid):
     a = int(a)
     if a >= 100:
-        return "M%dX%d::T%dX%d" % (a // 100, sid, a % 100, sid)
+        return "M%dX%d::T%dX%d" % (a // 100, sid, a, sid)
     return "T%dX%d" % (a, sid)
 
 
@@ -118,11 +122,11 @@ def elk_stmt(st, sid):
     if k == "def":
         return "def m%sx%d(x: Int): %s\n  %s\nend" % (st[1], sid, TY[st[2]], elk_expr(st[3], sid))
     if k == "const":
-        return in_module(st[1], sid, "const K%dX%d: Int = %s" % (int(st[1]) % 100, sid, elk_expr(st[2], sid)))
+        return in_module(st[1], sid, "const K%dX%d: Int = %s" % (int(st[1]), sid, elk_expr(st[2], sid)))
     if k == "decl":
         return "var v%s: %s = %s" % (st[1], elk_texp(st[2], sid), elk_expr(st[3], sid))
     if k == "td":
-        return in_module(st[1], sid, "typedef T%dX%d = %s" % (int(st[1]) % 100, sid, elk_texp(st[2], sid)))
+        return in_module(st[1], sid, "typedef T%dX%d = %s" % (int(st[1]), sid, elk_texp(st[2], sid)))
     if k == "cls":
         return "class C%sX%d; end" % (st[1], sid)
     if k == "asg":
@@ -157,6 +161,7 @@ class Gen:
         self.aliases = {}    # alias id (str) -> resolved type
         self.classes = []    # class ids (str)
         self.ghost = []      # ('l'|'k'|'c'|'t'|'o', name): names only rejected inputs defined
+        self.last_ghosts = []  # those of the latest rejected input
 
     def state(self):
         return dict(self.meths), list(self.consts), dict(self.locals), dict(self.aliases), list(self.classes), set(self.dead)
@@ -229,8 +234,10 @@ class Gen:
             return ["a", self.r.choice(al)]
         return t if t in ("i", "s") else ["o", t[1:]]
 
-    def valid_stmts(self, n, allow_defs=True):
-        """n well-typed statements; returns (stmts, state') — state' = (meths, consts, locals, aliases, classes, dead) if accepted"""
+    def valid_stmts(self, n, allow_defs=True, flat=False):
+        """n well-typed statements; returns (stmts, state') — state' = (meths, consts, locals, aliases, classes, dead) if accepted.
+        flat: only Root-level declarations that open no scope (named types, constants, locals) and prints — nothing in such an
+        input pushes or pops a constant / method scope after the declarations were registered"""
         r = self.r
         meths, consts, locs, aliases, classes, dead = self.state()
         # methods, classes and named types of this input are hoisted: decide them first so that earlier
@@ -239,8 +246,13 @@ class Gen:
         plan = []
         for _ in range(n):
             c = r.below(17)
-            plan.append("def" if (c < 3 and allow_defs) else "const" if c < 5 else "decl" if c < 8 else "asg" if c < 10
-                        else "td" if c < 13 else "cls" if c < 14 else "pr")
+            if flat:
+                plan.append("td" if c < 7 else "const" if c < 9 else "decl" if c < 12 else "asg" if c < 13 else "pr")
+            else:
+                plan.append("def" if (c < 3 and allow_defs) else "const" if c < 5 else "decl" if c < 8 else "asg" if c < 10
+                            else "td" if c < 13 else "cls" if c < 14 else "pr")
+        alias_ids = [i for i in ALIAS_IDS if i < 100] if flat else ALIAS_IDS
+        const_ids = [i for i in CONST_IDS if i < 100] if flat else CONST_IDS
         newdefs = []
         newcls = []
         newtd = []
@@ -264,7 +276,7 @@ class Gen:
                 if c not in classes:
                     classes.append(c)
             elif p == "td":
-                a = self.fresh_of(ALIAS_IDS, list(aliases) + [x for x in newtd if x])
+                a = self.fresh_of(alias_ids, list(aliases) + [x for x in newtd if x])
                 newtd.append(a)                          # None: no free name left -> becomes a print
         # right-hand sides: in a random resolution order, each alias may name the types known so far, so the
         # typedefs of one input refer to each other forwards and backwards without cycles
@@ -304,7 +316,7 @@ class Gen:
                 else:
                     stmts.append(["td", a, rhs[a]])
             elif p == "const":
-                k = self.fresh_of(CONST_IDS, consts)
+                k = self.fresh_of(const_ids, consts)
                 if k is None:
                     stmts.append(["pr", self.int_expr(1, False, meths, self.live(consts, dead), locs)])
                     continue
@@ -341,11 +353,14 @@ class Gen:
 
     def remember_ghosts(self, st):
         meths, consts, locs, aliases, classes, _ = st
+        self.last_ghosts = []
         for kind, new, old in (("l", locs, self.locals), ("k", consts, self.consts), ("c", meths, self.meths),
                                ("t", aliases, self.aliases), ("o", classes, self.classes)):
             for x in new:
-                if x not in old and (kind, x) not in self.ghost:
-                    self.ghost.append((kind, x))
+                if x not in old:
+                    self.last_ghosts.append((kind, x))
+                    if (kind, x) not in self.ghost:
+                        self.ghost.append((kind, x))
 
     def probe(self, kind, name):
         """an input that can only be accepted if the rejected input that defined `name` left a trace"""
@@ -353,34 +368,37 @@ class Gen:
         free_l = [str(i) for i in range(6, 9) if str(i) not in self.locals]
         if kind == "l":
             return [["pr", ["l", name]]]
+        root_a = [i for i in ALIAS_IDS if i < 100]
         if kind == "k":
-            k = self.fresh_of(CONST_IDS, self.consts + [name])
+            k = self.fresh_of([i for i in CONST_IDS if i < 100], self.consts + [name]) or self.fresh_of(CONST_IDS, self.consts + [name])
             if k is not None and r.chance(1, 2):
                 return [["const", k, ["add", ["k", name], ["i", "1"]]]]       # constant from a ghost constant
             return [["pr", ["k", name]]]
         if kind == "c":
             return [["pr", ["c", name, ["i", "1"]]]]
         if kind == "t":
-            a = self.fresh_of(ALIAS_IDS, list(self.aliases) + [name])
-            if a is not None and r.chance(2, 3):
+            a = (r.chance(3, 4) and self.fresh_of(root_a, list(self.aliases) + [name])) or self.fresh_of(ALIAS_IDS, list(self.aliases) + [name])
+            if a is not None and r.chance(3, 4):
                 return [["td", a, ["a", name]]]                               # named type from a ghost named type
             return [["decl", r.choice(free_l), ["a", name], ["i", "1"]]]
-        a = self.fresh_of(ALIAS_IDS, list(self.aliases))
+        a = (r.chance(3, 4) and self.fresh_of(root_a, list(self.aliases))) or self.fresh_of(ALIAS_IDS, list(self.aliases))
         if a is not None and r.chance(1, 2):
             return [["td", a, ["o", name]]]
         return [["decl", r.choice(free_l), ["o", name], ["new", name]]]
 
-    def fault(self, st):
-        """one ill-typed statement, by kind"""
+    def fault(self, st, flat=False):
+        """one ill-typed statement, by kind; flat: only faults that open no scope either (no method, class or module)"""
         r = self.r
         meths, consts, locs, aliases, classes, dead = st
-        kinds = ["undef-local", "undef-const", "undef-method", "decl-mismatch", "bad-body", "arith-mismatch",
-                 "undef-type", "decl-undef-type", "cyclic-typedef", "undef-class"]
+        kinds = ["undef-local", "undef-const", "undef-method", "decl-mismatch", "arith-mismatch",
+                 "undef-type", "decl-undef-type", "undef-class"]
+        if not flat:
+            kinds += ["bad-body", "cyclic-typedef"]
         if locs:
             kinds += ["asg-mismatch", "redeclare-local"]
         if consts:
             kinds.append("redeclare-const")
-        if meths:
+        if meths and not flat:
             kinds.append("bad-override")
         if aliases:
             kinds += ["redeclare-typedef", "decl-alias-mismatch"]
@@ -388,7 +406,7 @@ class Gen:
             kinds.append("decl-obj-mismatch")
         k = r.choice(kinds)
         free_l = [str(i) for i in range(6, 9) if str(i) not in locs]
-        free_a = [str(i) for i in (6, 7, 8, 106, 207) if str(i) not in aliases]
+        free_a = [str(i) for i in ((6, 7, 8) if flat else (6, 7, 8, 106, 207)) if str(i) not in aliases]
         if k == "undef-local":
             return k, ["pr", ["l", r.choice(free_l)]]
         if k == "undef-const":
@@ -412,7 +430,8 @@ class Gen:
         if k == "undef-class":
             return k, ["decl", r.choice(free_l), ["o", NEVER], ["i", "1"]]
         if k == "redeclare-typedef":
-            a = r.choice(sorted(aliases))
+            al = [a for a in sorted(aliases) if int(a) < 100 or not flat] or sorted(aliases)
+            a = r.choice(al)
             return k, ["td", a, aliases[a] if aliases[a] in ("i", "s") else ["o", aliases[a][1:]]]
         if k == "decl-alias-mismatch":
             a = r.choice(sorted(aliases))
@@ -426,7 +445,8 @@ class Gen:
             v = r.choice(sorted(locs))
             return k, ["decl", v, self.written(locs[v], {}), ["i", "1"] if locs[v] == "i" else ["s", "1"] if locs[v] == "s" else ["new", locs[v][1:]]]
         if k == "redeclare-const":
-            return k, ["const", r.choice(consts), ["i", "4"]]
+            kl = [x for x in consts if int(x) < 100 or not flat] or consts
+            return k, ["const", r.choice(kl), ["i", "4"]]
         m = r.choice(sorted(meths))
         t = "s" if meths[m] == "i" else "i"
         return k, ["def", m, t, ["s", "5"] if t == "s" else ["i", "5"]]
@@ -447,7 +467,8 @@ def gen_session(r, n_inputs):
         if pending_probe and g.ghost and r.chance(3, 4):
             # probe: use a name only a rejected input defined -> must be rejected too
             pending_probe -= 1
-            kind, name = r.choice(g.ghost)
+            recent = [x for x in g.ghost if x in g.last_ghosts] or g.ghost      # names of the latest rejected input first
+            kind, name = r.choice(recent if r.chance(3, 4) else g.ghost)
             stmts = g.probe(kind, name)
             if g.locals and r.chance(1, 3):
                 iv = [v for v, t in sorted(g.locals.items()) if t in ("i", "s")]
@@ -458,20 +479,23 @@ def gen_session(r, n_inputs):
             must_rej.append(True)
             continue
         if c < 9:
-            stmts, st = g.valid_stmts(r.range(1, 4))
+            flat = idx > 0 and r.chance(1, 3)
+            stmts, st = g.valid_stmts(r.range(1, 3) if flat else r.range(1, 4), flat=flat)
             g.commit(st)
             inputs.append(["inp"] + stmts)
-            kinds.append("valid-redef" if any(s[0] == "def" for s in stmts) else "valid")
+            kinds.append("valid-redef" if any(s[0] == "def" for s in stmts) else "valid-flat" if flat else "valid")
             must_rej.append(False)
         elif c < 14:
-            # late failure: definitions first, then a fault, then maybe more
-            stmts, st = g.valid_stmts(r.range(1, 3))
-            fk, bad = g.fault(st)
+            # late failure: definitions first, then a fault, then maybe more; flat: Root-level declarations only, so that
+            # whatever the checker caches while registering them survives to the end of the rejected input
+            flat = r.chance(2, 5)
+            stmts, st = g.valid_stmts(r.range(1, 3), flat=flat)
+            fk, bad = g.fault(st, flat)
             pos = r.range(1 if len(stmts) else 0, len(stmts))
             stmts = stmts[:pos] + [bad] + stmts[pos:]
             g.remember_ghosts(st)
             inputs.append(["inp"] + stmts)
-            kinds.append("late:" + fk)
+            kinds.append(("flat:" if flat else "late:") + fk)
             must_rej.append(True)
             pending_probe = 2
         elif c < 16:
@@ -673,15 +697,25 @@ def run(ctx):
         "Proved (Coq, for every history of any length, induction over the history): on the model of Checker.CheckSource / "
         "CheckProgram's phases (namespace+constant hoisting, compiler chain, method hoisting with override check, constant "
         "check, method bodies, top-level statements, slot allocation) and of InterpretREPL's persistent slot-addressed value "
-        "stack, the results of the inputs the REPL runs equal, input by input, the results of a name-keyed reference interpreter "
+        "stack, over a tiny language with methods, Int constants, named types (typedef; aliases of Int/String/aliases/classes, hoisted, "
+        "forward references, circular and undefined ones rejected, no redeclaration), empty classes and their instances, locals "
+        "declared with type expressions: the results of the inputs the REPL runs equal, input by input, the results of a name-keyed reference interpreter "
         "run on the accepted inputs only (C27_incremental_eq_batch; an uncaught runtime error ends that input only, effects "
-        "before it persist); a rejected input leaves methods, constants, locals, declared types, the compiler's slot table and "
+        "before it persist); a rejected input leaves methods, constants, named types, classes, locals, declared types, the compiler's slot table and "
         "the VM state unchanged and the rest of the session is the same with or without it (C27_rollback, "
         "C27_rejected_no_trace). The model mirrors the code WITH fixes/C27-*.patch; for CheckSource as found the same model with "
         "fx=false refutes both (C27_rollback_refuted, C27_incremental_refuted: early failure leaves the namespace-definition "
         "compiler in Checker.compiler). C27_frame_audit (vm_compute, re-proved every run on the table regenerated from "
-        "the Go AST): every field of `type Checker struct` has a class (restored / reset per input / immutable config / "
-        "append-only cache / transient-balanced) consistent with the assignments in CheckSource/CheckProgram. NOT proved, only "
+        "the Go AST): every field of `type Checker struct` has a class (restored / reset by CheckSource / reset by CheckProgram / "
+        "immutable config / append-only cache / transient-balanced) consistent with the assignments in CheckSource/CheckProgram; a field "
+        "classed reset-by-CheckSource (Filename, flags, the two scope-copy caches, macroChecks, methodBodyChecks, signatureChecks) must be "
+        "assigned at the top level of CheckSource before the call of CheckProgram, a field classed reset-by-CheckProgram must be assigned by "
+        "an unconditional top-level statement of CheckProgram or of a pass it calls at top level. The audit does NOT check that the "
+        "assignment precedes every read: Checker.phase passes it although hoisting reads the phase before CheckProgram first assigns it "
+        "(known finding reject:missed:late:cyclic-typedef, found by the stream; fixes/C27-reset-phase.patch). Modules are not in the model: "
+        "the printer realises named types / constants with ids >= 100 inside `module M .. end` (one flat table in the model). Constants "
+        "initialised from constants are only type-checked (the compiler never defines them at run time, in batch and REPL alike; the "
+        "generator never reads them). NOT proved, only "
         "observed through behaviour and digests: that DeepCopyEnv copies the whole types package faithfully, that the real "
         "checker's phases behave as the model's on programs outside the tiny language, the method-call inline caches and "
         "static call binding of the VM/compiler (the reference is compared with `elk run` batch programs and the REPL "
@@ -689,8 +723,11 @@ def run(ctx):
     ctx.trusted_base += [
         "harness/cmd/c27 drives checker.CheckSourceBytecode + vm.InterpretREPL as repl.evaluate does (signal/abort plumbing left out)",
         "harness/cmd/c27gen: go/ast extraction of the Checker fields and of the save/restore/reset facts (syntactic, one call level for setters)",
-        "coq/Model/C27_FieldClasses.v: the classification table and the reasons given there for ResetPerInput/TransientBalanced/AppendOnlyCache "
-        "fields are read off the source by hand; the audit checks only the syntactic facts",
+        "coq/Model/C27_FieldClasses.v: the classification table and the reasons given there for ResetByProgram/TransientBalanced/AppendOnlyCache "
+        "fields are read off the source by hand; the audit checks only the syntactic facts (assigned before CheckProgram / unconditionally by "
+        "CheckProgram), not that a reset precedes every read of the field",
+        "the Python printer maps named types / constants with ids >= 100 to members of modules (`module M1X7; typedef T102X7 = ..; end`, "
+        "`M1X7::T102X7`): that module scoping does not change the meaning of these declarations is assumed, not modelled",
         "the Python printer from the tiny language to Elk and the batch-program builder (do/catch around the raising statement)",
         "hook types/checker/verif_c27.go (environment digest: namespaces, constants, methods, ivars, locals, scopes)",
     ]
@@ -712,7 +749,8 @@ def run(ctx):
             l = l.strip()
             if l and not l.startswith("#"):
                 sx = sx_parse(l.split("\t")[-1])
-                sessions.append((sx, ["corpus"] * (len(sx) - 1), [False] * (len(sx) - 1), "corpus"))
+                label = l.split("\t")[0] if "\t" in l else "c"
+                sessions.append((sx, ["corpus:" + label] * (len(sx) - 1), [False] * (len(sx) - 1), "corpus"))
     n_corpus = len(sessions)
     for _ in range(n_sessions):
         sx, kinds, mr = gen_session(r, r.range(5, ctx.n(8, 12)))
@@ -767,7 +805,9 @@ def run(ctx):
                 nfail += 1
                 ok_so_far = False
                 cls = ist if ist != ms else ist + "-output"
-                ctx.fail("sess:%s:after-%s:impl-%s:model-%s" % (kind.split(":")[0] if kind.startswith("late") else kind, prev_special, cls, ms),
+                # late failures are keyed by the fault (the history before them is in the text, not in the key)
+                ctx.fail(("sess:%s:impl-%s:model-%s" % (kind, cls, ms)) if kind.startswith(("late:", "flat:")) else
+                         ("sess:%s:after-%s:impl-%s:model-%s" % (kind, prev_special, cls, ms)),
                          "input %d (%s) of the session: REPL %s %s %s, model %s %s" % (k, kind, ist, iv, o.get("err") or o.get("diag") or "", ms, mv),
                          stream=STREAM, case=sx_str(sx), impl=json.dumps(obs)[:3000], model=mi,
                          oracle="per-input result of the REPL vs the extracted model (C27_incremental_eq_batch)")
@@ -781,11 +821,19 @@ def run(ctx):
                              oracle="a rejected input leaves classes, methods, constants, locals and declared types as they were")
             elif must_rej[k] and ist in ("ok", "err"):
                 nfail += 1
-                ctx.fail("rollback:leak:%s" % kind, "input %d uses a name that only a rejected input defined, and was accepted" % k,
-                         stream=STREAM, case=sx_str(sx), impl=json.dumps(obs)[:3000], model=mi,
-                         oracle="a rejected input adds no classes, methods, constants or locals")
+                if kind.startswith("probe-"):
+                    ctx.fail("rollback:leak:%s" % kind, "input %d uses a name that only a rejected input defined, and was accepted" % k,
+                             stream=STREAM, case=sx_str(sx), impl=json.dumps(obs)[:3000], model=mi,
+                             oracle="a rejected input adds no classes, methods, constants, named types or locals")
+                else:
+                    ctx.fail("reject:missed:%s" % kind, "input %d is ill-typed by construction (%s: the same text is rejected as a batch program) "
+                             "and was accepted by the REPL" % (k, kind),
+                             stream=STREAM, case=sx_str(sx), impl=json.dumps(obs)[:3000], model=mi,
+                             oracle="the REPL accepts an input only if the accepted inputs and that input are accepted as one program")
             if o.get("env"):
                 prev_env = o["env"]
+            if not ok_so_far:
+                break       # the generator's bookkeeping (ghost names, expected rejections) is void after the first divergence
             if ist in ("rej", "err", "panic") or kind == "valid-redef":
                 if ist != "ok":
                     interesting = True
@@ -834,12 +882,19 @@ def run(ctx):
                      "input %d: REPL printed %s (%s), the batch program printed %s for that input" % (k, iv, ist, got),
                      stream=STREAM, case=sx_str(sx), impl=json.dumps(o)[:1500], model=m_batch,
                      oracle="each accepted input prints what the accepted inputs run as one program print at that point")
-    rule = ("seeded sessions of 5-8 (thorough 5-12) inputs over the tiny language of Model/C27_Repl.v (<= 6 methods Int->Int|String, <= 6 Int "
-            "constants, <= 6 locals Int|String; method bodies over the parameter, constants and other methods incl. ones defined later in the same "
-            "input; redefinitions with the same signature): valid inputs, late failures (undefined local/constant/method, declaration / assignment / "
-            "arithmetic type mismatch, redeclared local/constant, ill-typed method body, invalid override) placed after >= 1 valid definition of the "
-            "same input, early failures (`class Z < Nope`), runtime errors (division by zero in a print, an assignment or nested arithmetic) after "
-            "some effects and followed only by prints, probes using names only a rejected input defined, print-all inputs; per-session unique "
+    rule = ("seeded sessions of 5-8 (thorough 5-12) inputs over the tiny language of Model/C27_Repl.v (<= 6 methods Int->Int|String, <= 9 Int "
+            "constants (6 at Root, 3 inside modules; 1/3 of them initialised from earlier constants and then never read), <= 11 named types (6 at "
+            "Root, 5 inside 2 modules) aliasing Int/String/an earlier or later named type/a class, <= 4 empty classes (reopened at will) and "
+            "their instances, <= 6 locals whose declared type is Int|String|a named type|a class; method bodies over the parameter, constants and "
+            "other methods incl. ones defined later in the same input; redefinitions with the same signature): valid inputs (1/3 of them 'flat': "
+            "Root-level typedef/const/var/print only, nothing that opens a scope), late failures (undefined local/constant/method/type/class, "
+            "declaration / assignment / arithmetic type mismatch incl. through aliases and objects, redeclared local/constant/named type, circular "
+            "named type, ill-typed method body, invalid override) placed after >= 1 valid statement of the same input (2/5 of them flat, so that "
+            "whatever the checker cached while registering the declarations survives to the end of the rejected input), early failures "
+            "(`class Z < Nope`), runtime errors (division by zero in a print, an assignment or nested arithmetic) after "
+            "some effects and followed only by prints, probes using names only a rejected input defined (3/4 from the latest rejected input; "
+            "local / constant / constant-from-constant / method / `typedef New = Ghost` at Root or in a module / `var v: Ghost` / ghost class), "
+            "print-all inputs; per-session unique "
             "method/constant names (the runtime's namespace is process-global); driven in-process through CheckSourceBytecode+InterpretREPL; "
             "compared per input with the extracted model (status + printed values); rollback oracle on the implementation alone (digest equality "
             "across rejected inputs, probes rejected); batch oracle: `elk run` on the concatenation of the accepted inputs up to k (last accepted and "
